@@ -72,8 +72,18 @@ impl Drop for Teardown {
     }
 }
 
+/// released newest first (the handles parked in a later entry were opened later)
+struct TdList(Vec<Teardown>);
+impl Drop for TdList {
+    fn drop(&mut self) {
+        while let Some(x) = self.0.pop() {
+            drop(x);
+        }
+    }
+}
+
 thread_local! {
-    static TD: RefCell<Vec<Teardown>> = const { RefCell::new(Vec::new()) };
+    static TD: RefCell<TdList> = const { RefCell::new(TdList(Vec::new())) };
 }
 
 /// registers the destructor. early: nothing of fastrace is touched here (the generator makes this
@@ -89,5 +99,5 @@ pub fn arm(early: bool, tag: u32) {
         handles.push(Box::new(g));
         handles.push(Box::new(l));
     }
-    TD.with(|td| td.borrow_mut().push(Teardown { tag, handles }));
+    TD.with(|td| td.borrow_mut().0.push(Teardown { tag, handles }));
 }
